@@ -54,6 +54,8 @@ def make_jobs(prop, tier, seed):
     rng = random.Random(seed * 50021 + int(prop[1:]))
     prof = PROFILES[prop]
     ntrees = {"quick": 120, "thorough": 2500}[tier]
+    if tier == "quick" and prop in ("C14", "C20"):
+        ntrees = 360      # these profiles cost a couple of seconds per hundred registries
     per_tree = {"quick": 4, "thorough": 8}[tier]
     jobs = []
     for t in range(ntrees):
